@@ -1,24 +1,24 @@
 #!/bin/bash
-# confirm seeded changes produced by independent sub-agents: for each /tmp/seed/<ID>/out/m<i>.patch
+# confirm seeded changes produced by independent sub-agents: for each ${SEEDDIR:-/tmp/seed}/<ID>/out/m<i>.patch
 #  1. applies to a scratch worktree of /repo HEAD, 2. full suite must pass, 3. demo must fail with the change,
-#  4. demo must pass without it.  Writes /tmp/seed/confirm/<ID>-m<i>.json
+#  4. demo must pass without it.  Writes ${SEEDDIR:-/tmp/seed}/confirm/<ID>-m<i>.json
 set -u
-WT=/tmp/seed/confirm-wt
-OUT=/tmp/seed/confirm
+WT=${SEEDDIR:-/tmp/seed}/confirm-wt
+OUT=${SEEDDIR:-/tmp/seed}/confirm
 mkdir -p $OUT
-export CARGO_NET_OFFLINE=true CARGO_TARGET_DIR=/tmp/seed/confirm-target
+export CARGO_NET_OFFLINE=true CARGO_TARGET_DIR=${SEEDDIR:-/tmp/seed}/confirm-target
 if [ ! -d $WT ]; then git -C /repo worktree add --detach $WT HEAD >/dev/null 2>&1; fi
 for id in "$@"; do
-  for p in /tmp/seed/$id/out/m*.patch; do
+  for p in ${SEEDDIR:-/tmp/seed}/$id/out/m*.patch; do
     [ -f "$p" ] || continue
     i=$(basename $p .patch)
     res=$OUT/$id-$i.json
     [ -f $res ] && continue
     git -C $WT checkout -q -- . ; git -C $WT clean -fdq
-    demo=/tmp/seed/$id/out/${i}_demo.rs
+    demo=${SEEDDIR:-/tmp/seed}/$id/out/${i}_demo.rs
     target=$(head -3 $demo | grep -o 'append to: *[^ ]*' | sed 's/append to: *//')
-    filter=$(python3 -c "import json;print(json.load(open('/tmp/seed/$id/out/${i}_meta.json')).get('demo_test_filter','seeded_demo_$i'))")
-    applies=true; git -C $WT apply $p 2>/tmp/seed/confirm/$id-$i.apply.err || applies=false
+    filter=$(python3 -c "import json;print(json.load(open('${SEEDDIR:-/tmp/seed}/$id/out/${i}_meta.json')).get('demo_test_filter','seeded_demo_$i'))")
+    applies=true; git -C $WT apply $p 2>${SEEDDIR:-/tmp/seed}/confirm/$id-$i.apply.err || applies=false
     suite=skipped; demo_with=skipped; demo_without=skipped
     if $applies; then
       (cd $WT && cargo nextest run --workspace --no-fail-fast --test-threads 8 --offline > $OUT/$id-$i.suite.log 2>&1); src=$?
